@@ -124,13 +124,25 @@ def handle : P String := do
       if !extractOk m p then pure "ABORT"
       else
         let dims := List.range (D + 1)
-        let parents := (List.range p.nDom).map fun a =>
-          let nc := numChildren p childOf a
+        let pars := List.range p.nDom
+        -- computed once: child target sets ct[a][ch][d], neighbour lists, parent halos H[a][b][d]
+        let ncs := pars.map fun a => numChildren p childOf a
+        let cts := pars.map fun a => (List.range (ncs.getD a 0)).map fun ch =>
+          dims.map fun d => childTarget m (p.row a) childOf ch d
+        let nbrs := pars.map fun a => Graph.sortList (commRanks m p a)
+        let hal := pars.map fun a => (nbrs.getD a []).map fun b => (b, dims.map fun d => halo m p a b d)
+        let haloOf := fun (a b d : Nat) =>
+          match (hal.getD a []).find? (fun e => e.1 == b) with
+          | some e => e.2.getD d []
+          | none => halo m p a b d
+        let parents := pars.map fun a =>
+          let nc := ncs.getD a 0
           let kids := (List.range nc).map fun ch =>
-            let ts := dims.map fun d => showNatsL (childTarget m (p.row a) childOf ch d)
-            let nbrs := Graph.sortList (commRanks m p a)
-            let hs := nbrs.flatMap fun b => (List.range (numChildren p childOf b)).filterMap fun dh =>
-              let ls := dims.map fun d => childHalo m p childOf a ch b dh d
+            let ctA := (cts.getD a []).getD ch []
+            let ts := ctA.map showNatsL
+            let hs := (nbrs.getD a []).flatMap fun b => (List.range (ncs.getD b 0)).filterMap fun dh =>
+              let ctB := (cts.getD b []).getD dh []
+              let ls := dims.map fun d => childHaloFrom (ctA.getD d []) (ctB.getD d []) (haloOf a b d) (haloOf b a d)
               if ls.all (·.isEmpty) then none
               else some (" ".intercalate ([toString b, toString dh] ++ ls.map showNatsL))
             " ".intercalate (["K"] ++ ts ++ ["H", toString hs.length] ++ hs)
